@@ -119,6 +119,8 @@ pub struct RefOut {
     pub taken: bool,
     /// class Any only: may the implementation write memory outside `writes`? (undefined encodings, TRAPA #0)
     pub mem_open: bool,
+    /// class Any only: the cycle list is nevertheless complete (C20 checks the charge of such cases)
+    pub cyc_valid: bool,
 }
 
 impl RefOut {
@@ -136,6 +138,7 @@ impl RefOut {
             note: "",
             taken: false,
             mem_open: false,
+            cyc_valid: false,
         }
     }
     /// left open by the properties; memory outside `writes` must still not change
@@ -550,8 +553,20 @@ fn exec_inner<M: MemRead>(row: usize, f: &Fields, len: usize, i: &RefIn, mem: &M
                         _ => (data_reg & 7) == addr_reg,
                     };
                     if overlap {
+                        // the result is left open, the charge is not: I + data cycles at the operand + N2
+                        let ea_o = if store { base.wrapping_sub(n) & M24 } else { base & M24 };
                         if store {
-                            wr_n_dontcare(&mut o, base.wrapping_sub(n) & M24, n, true);
+                            wr_n_dontcare(&mut o, ea_o, n, true);
+                        }
+                        if all_mapped(ea_o, n) && !(n > 1 && ea_o & 1 != 0) {
+                            o.cy(Cyc::I, iw, i.pc);
+                            match sz {
+                                Sz::B => o.cy(Cyc::L, 1, ea_o),
+                                Sz::W => o.cy(Cyc::M, 1, ea_o),
+                                Sz::L => o.cy(Cyc::M, 2, ea_o),
+                            }
+                            o.cy(Cyc::N, 2, 0);
+                            o.cyc_valid = true;
                         }
                         return o.any("data register overlaps the +/- address register");
                     }
